@@ -107,8 +107,8 @@ PROPS = {
                 rule="print / print_list / nl placed left and right of multi-answer, failing and negated goals; real stdout between successive answers is compared with the reference search's text; "
                      "plus single print / print_list / nl calls over 8 format strings (0-3 markers at every position) x argument tuples (atoms, integers, bound variables, chains) and concatenation without markers",
                 assumptions=["only atoms and small integers are printed (given literally or bound); format strings with k markers have k arguments or none"]),
-    "C05": dict(jobs=["solver-not", "solver-cut", "solver-andor", "solver-print", "solver-alias", "solver-lists", "solver-time", "trace-solver"], level="model_checking",
-                rule="every program/query of the solver slices, asked 2 more times after the first 'no more' (answers and output)",
+    "C05": dict(jobs=["solver-not", "solver-cut", "solver-andor", "solver-print", "solver-alias", "solver-lists", "solver-time", "trace-solver", "session"], level="model_checking",
+                rule="every program/query of the solver slices, asked 2 more times after the first 'no more' (answers and output); (session: every query of a session history that had reported 'no more' is asked again at the END of the history -- after the answers, re-asks and timeouts of the later queries, which may have left the stop flag set -- through solve() and through next_solution(): 'No more.' / none, nothing written)",
                 assumptions=[]),
     "C11": dict(jobs=["solver-andor", "solver-alias", "solver-lists", "solver-print", "solver-not", "solver-cut"], level="model_checking",
                 rule="every program of the solver slices under two clause-wise renamings generated by the specification (pool 1 reuses the QUERY's variable names in every clause, all clauses sharing names; pool 2 swaps each clause's own names); AlphaInvariant is checked on the reference semantics and every variant is replayed",
